@@ -491,6 +491,9 @@ class Coordinator(object):
                     join_response.members,
                     topic_partitions=topic_partitions,
                 )
+            if self._stopping:
+                # stop() ran while the leader was looking up the partitions
+                return
 
         self._state = "[syncing]"
         sync_response = yield self.send_sync_group_request(assignments)
